@@ -20,14 +20,14 @@ def scalar_default(rng):
     return rng.choice([Num("1"), Num("0"), "s", "", True, False, None, [Num("1")], [], Num("2.5")])
 
 
-def gen_obj_schema(rng, depth, bad_default_p=0.08):
+def gen_obj_schema(rng, depth, bad_default_p=0.08, dk="$defs"):
     o = Obj([("type", "object")] if rng.random() < 0.5 else [])
     props = Obj()
     names = rng.sample(gs.NAMES, rng.randint(1, 3))
     for k in names:
         r = rng.random()
         if depth > 0 and r < 0.45:
-            sub = gen_obj_schema(rng, depth - 1, bad_default_p)
+            sub = gen_obj_schema(rng, depth - 1, bad_default_p, dk)
             if rng.random() < 0.3:
                 # an own default on an intermediate object: partial object, completed by nested defaults
                 dv = Obj([(kk, scalar_default(rng)) for kk in rng.sample(gs.NAMES, rng.randint(0, 2))])
@@ -43,7 +43,11 @@ def gen_obj_schema(rng, depth, bad_default_p=0.08):
         elif r < 0.93:
             sub = rng.choice([True, Obj(), Obj([("type", "number")])])
         else:
-            sub = Obj([("$ref", "#/$defs/leaf")])
+            sub = Obj([("$ref", "#/%s/leaf" % dk)])
+            if rng.random() < 0.5:
+                # a default beside $ref: it is declared by this subschema, whose only assertion (draft-07) or one of whose assertions
+                # (2020-12) is the reference target; ApplyDefaults inserts it in both drafts
+                sub.set("default", rng.choice([Num("1"), Num("2.5"), "s", None, Num("0"), True]))
         props.kvs.append((k, sub))
     o.set("properties", props)
     if rng.random() < 0.5:
@@ -84,8 +88,15 @@ def gen_inst(rng, schema, depth=0):
 def gen(rng, tier, n):
     ops = []
     while len(ops) < n:
-        root = gen_obj_schema(rng, rng.choice([1, 2, 3, 4 if tier == "thorough" else 3]))
-        root.set("$defs", Obj([("leaf", Obj([("default", Num("1")), ("type", "number")]))]))
+        d7 = rng.random() < 0.2
+        dk = "definitions" if d7 else "$defs"
+        root = gen_obj_schema(rng, rng.choice([1, 2, 3, 4 if tier == "thorough" else 3]), dk=dk)
+        root.set(dk, Obj([("leaf", Obj([("default", Num("1")), ("type", "number")] + ([("minimum", Num("1"))] if rng.random() < 0.3 else [])))]))
+        if d7:
+            root.kvs.insert(0, ("$schema", rng.choice(gs.D7_URIS)))
+            insts = [gen_inst(rng, root) for _ in range(5)] + [Obj()]
+            ops.append({"op": "defaults", "args": {"schema": root, "insts": insts}, "meta": {"d7": True}})
+            continue
         if rng.random() < 0.05:
             root.set("$dynamicAnchor", "n")
             root.get("$defs").kvs.append(("dyn", Obj([("$dynamicRef", "#n")])))
